@@ -3,7 +3,7 @@ import random
 from harness import common as H, histories as HI
 
 PROP = "C01"
-ALPHABET = ["ref", "posref", "append", "extend", "setitem", "iadd", "imul", "iaddf", "imulf", "assignf",
+ALPHABET = ["ref", "posref", "refsp", "append", "extend", "setitem", "iadd", "imul", "iaddf", "imulf", "assignf",
             "populate", "denseref", "updcoords", "updpayloads", "clear"]
 RULE = ("cases = (initial tree of depth 1-3 with explicit defaults / empty sub-fibers, tensor-owned or free, history of "
         "public mutators generated from the evolving state: reference insertion, getPositionRef, append / extend / "
